@@ -197,6 +197,10 @@ impl Instance {
         let methods = verif::rpc_methods(dir).map_err(|e| e.to_string())?;
         Ok(Instance { dir: dir.to_path_buf(), methods: Some(methods), calls: 0, owns_dir: false, hash_seed: None })
     }
+    /// a handle without a database (for code that only needs the World's pure helpers)
+    pub fn closed() -> Instance {
+        Instance { dir: PathBuf::new(), methods: None, calls: 0, owns_dir: false, hash_seed: None }
+    }
     pub fn fresh_seeded(tag: &str, hash_seed: u64) -> Instance {
         verif::simhash::set_seed(hash_seed);
         let mut i = Instance::fresh(tag);
